@@ -67,20 +67,23 @@ static int check(const char* name, Prior& prior, const shared_ptr<target_type>& 
 template <class Prior>
 static int configs(const char* cls, Prior (*mk)(bool), double tol, float h)
 {
-  struct { const char* what; bool only2d; IndexRange3D range; int wz, wy; } cfg[] = {
-    { "3D default weights 4x5x6", false, IndexRange3D(0, 3, -2, 2, -3, 2), 0, 0 },
-    { "only 2D 3x4x5", true, IndexRange3D(0, 2, -2, 1, -2, 2), 0, 0 },
-    { "only 2D 1x3x3", true, IndexRange3D(0, 0, 0, 2, 0, 2), 0, 0 },
-    { "user weights 3x5x5 on 3x6x6", false, IndexRange3D(0, 2, -3, 2, -3, 2), 1, 2 },
-    { "user weights 1x5x3 on 2x4x4", false, IndexRange3D(0, 1, 0, 3, 0, 3), 0, 2 },
+  struct { const char* what; bool only2d; IndexRange3D range; int wz, wy, wx; } cfg[] = {
+    { "3D default weights 4x5x6", false, IndexRange3D(0, 3, -2, 2, -3, 2), 0, 0, 0 },
+    { "only 2D 3x4x5", true, IndexRange3D(0, 2, -2, 1, -2, 2), 0, 0, 0 },
+    { "only 2D 1x3x3", true, IndexRange3D(0, 0, 0, 2, 0, 2), 0, 0, 0 },
+    { "user weights 3x5x5 on 3x6x6", false, IndexRange3D(0, 2, -3, 2, -3, 2), 1, 2, 2 },
+    { "user weights 1x5x3 on 2x4x4", false, IndexRange3D(0, 1, 0, 3, 0, 3), 0, 2, 1 },
+    { "user weights 3x3x5 (x wider than y) on 3x5x6", false, IndexRange3D(0, 2, -2, 2, -3, 2), 1, 1, 2 },
+    { "user weights 1x1x3 on 2x3x5", false, IndexRange3D(0, 1, 0, 2, -2, 2), 0, 0, 1 },
+    { "user weights 5x3x1 (z wider than y wider than x) on 5x4x3", false, IndexRange3D(-2, 2, 0, 3, 0, 2), 2, 1, 0 },
   };
   int n = 0;
   for (auto& c : cfg)
     {
       Prior prior = mk(c.only2d);
-      if (c.wy)
+      if (c.wz || c.wy || c.wx)
         {
-          const int wx = c.wz == 0 && c.wy == 2 && c.range.get_max_index() == 1 ? 1 : c.wy;
+          const int wx = c.wx;
           Array<3, float> w(IndexRange3D(-c.wz, c.wz, -c.wy, c.wy, -wx, wx));
           for (int dz = -c.wz; dz <= c.wz; ++dz) for (int dy = -c.wy; dy <= c.wy; ++dy) for (int dx = -wx; dx <= wx; ++dx)
             w[dz][dy][dx] = (dz == 0 && dy == 0 && dx == 0) ? 0.F : 1.F / (1 + dz * dz + dy * dy + dx * dx);
